@@ -210,3 +210,189 @@ func TestLateOwnProposal(t *testing.T) {
 	h.SetExhaustive("C12", "lateown")
 	_ = fmt.Sprint
 }
+
+// Scripted schedule family "late polka": node X locks block B in round 0 (only X sees the
+// polka); in round 1 a different block B2 gathers a polka with the Byzantine prevote, which
+// reaches X only after X has timed out of prevote-wait and precommitted nil. X must then unlock
+// (a polka for something else in a later round than its lock); the Byzantine validator goes
+// silent and the other honest nodes, locked on B2, need X's vote to finish the height.
+type LatePolkaCase struct {
+	X int `json:"x"` // which honest node (index into the honest list) plays X
+}
+
+func runLatePolka(c LatePolkaCase, x *h.Ctx) {
+	dir, doneDir := sim.TempDir("c12p-")
+	defer doneDir()
+	N := 4
+	ps := []int64{1, 1, 1, 1}
+	// try each validator as the Byzantine one until the script's preconditions hold
+	for byzID := 0; byzID < N; byzID++ {
+		byz := make([]bool, N)
+		byz[byzID] = true
+		net := sim.New(sim.Config{Powers: ps, Byz: byz, Dir: dir + fmt.Sprintf("/b%d", byzID)})
+		ok := playLatePolka(net, byzID, c, x)
+		net.Close()
+		if ok || x.Failed() {
+			return
+		}
+	}
+	x.Label("script-not-applicable")
+}
+
+func playLatePolka(net *sim.Net, byzID int, c LatePolkaCase, x *h.Ctx) bool {
+	d := sim.NewDriver(net)
+	hs := net.Honest()
+	vals := hs[0].RS().Validators
+	v1 := vals.Copy()
+	v1.IncrementAccum(1)
+	p0 := idOf(net, vals.Proposer().Address)
+	p1 := idOf(net, v1.Proposer().Address)
+	X := hs[c.X%len(hs)]
+	if p0 == byzID || p1 == X.ID || p0 < 0 || p1 < 0 {
+		return false // needs an honest round-0 proposer and a round-1 proposer other than X
+	}
+	var others []*sim.Node
+	for _, n := range hs {
+		if n != X {
+			others = append(others, n)
+		}
+	}
+	isVote := func(f sim.Flight, typ byte) bool {
+		vm, ok := f.Msg.(*pbft.VoteMessage)
+		return ok && vm.Vote.Type == typ
+	}
+	isData := func(f sim.Flight) bool {
+		switch f.Msg.(type) {
+		case *pbft.ProposalMessage, *pbft.BlockPartMessage:
+			return true
+		}
+		return false
+	}
+	// ---- round 0: everybody gets the proposal and prevotes B; only X sees the polka
+	for _, n := range hs {
+		fireNewest(net, n)
+	}
+	ownAll(net, net.Nodes[p0])
+	deliverMatching(net, isData)
+	for _, n := range hs {
+		ownAll(net, n)
+	}
+	deliverMatching(net, func(f sim.Flight) bool { return f.To == X.ID && isVote(f, types.VoteTypePrevote) })
+	if X.RS().LockedBlock == nil {
+		ownAll(net, X)
+	}
+	ownAll(net, X) // precommit B
+	if X.RS().LockedBlock == nil {
+		return false
+	}
+	B := types.BlockID{Hash: X.RS().LockedBlock.Hash(), PartsHeader: X.RS().LockedBlockParts.Header()}
+	for _, n := range others {
+		// one more prevote for B (2 of 4) and the Byzantine nil prevote: +2/3 any, no polka
+		cnt := 0
+		for {
+			idx := -1
+			for i, f := range net.InFlight {
+				if f.To == n.ID && isVote(f, types.VoteTypePrevote) {
+					idx = i
+					break
+				}
+			}
+			if idx < 0 || cnt >= 1 {
+				break
+			}
+			net.Deliver(idx, false)
+			cnt++
+		}
+		net.Inject(n.ID, byzID, &pbft.VoteMessage{Vote: sim.SignVote(byzID, vals, 1, 0, types.VoteTypePrevote, types.BlockID{})})
+		if n.RS().Step == pbft.RoundStepPrevoteWait {
+			fireNewest(net, n)
+		}
+		ownAll(net, n) // precommit nil
+	}
+	// forget the round-0 prevotes still in flight; deliver all precommits; everybody moves to round 1
+	for i := 0; i < len(net.InFlight); {
+		if isVote(net.InFlight[i], types.VoteTypePrevote) {
+			net.Drop(i)
+			continue
+		}
+		i++
+	}
+	net.Dropped = nil // these votes are of a finished round of this script; they stay lost
+	deliverMatching(net, func(f sim.Flight) bool { return isVote(f, types.VoteTypePrecommit) })
+	for _, n := range hs {
+		if n.RS().Step == pbft.RoundStepPrecommitWait {
+			fireNewest(net, n)
+		}
+	}
+	for _, n := range hs {
+		if n.RS().Round != 1 {
+			return false
+		}
+	}
+	// ---- round 1: B2 proposed (by an unlocked honest node or by the Byzantine validator)
+	var B2 types.BlockID
+	if p1 == byzID {
+		st := others[0].CS.GetState()
+		blk, parts := sim.MakeBlock(st, nil, byzID, []types.Tx{types.Tx("late-polka-b2")}, 512)
+		B2 = types.BlockID{Hash: blk.Hash(), PartsHeader: parts.Header()}
+		for _, m := range sim.ProposalMsgs(byzID, 1, 1, parts, -1, types.BlockID{}) {
+			net.Broadcast(byzID, m)
+		}
+	} else {
+		ownAll(net, net.Nodes[p1])
+		rs := net.Nodes[p1].RS()
+		if rs.ProposalBlock == nil {
+			return false
+		}
+		B2 = types.BlockID{Hash: rs.ProposalBlock.Hash(), PartsHeader: rs.ProposalBlockParts.Header()}
+	}
+	if B2.Equals(B) {
+		return false
+	}
+	deliverMatching(net, isData)
+	for _, n := range hs {
+		ownAll(net, n) // prevotes: X for B (locked), the others for B2
+	}
+	vr1 := others[0].RS().Validators
+	byzPrevote := &pbft.VoteMessage{Vote: sim.SignVote(byzID, vr1, 1, 1, types.VoteTypePrevote, B2)}
+	for _, n := range others {
+		deliverMatching(net, func(f sim.Flight) bool { return f.To == n.ID && isVote(f, types.VoteTypePrevote) })
+		net.Inject(n.ID, byzID, byzPrevote) // polka B2 for the others
+		ownAll(net, n)                      // lock B2, precommit B2
+	}
+	// X: the two honest prevotes for B2 only -> +2/3 any, no polka -> wait -> precommit nil
+	deliverMatching(net, func(f sim.Flight) bool { return f.To == X.ID && isVote(f, types.VoteTypePrevote) })
+	if X.RS().Step == pbft.RoundStepPrevoteWait {
+		fireNewest(net, X)
+	}
+	ownAll(net, X)
+	if X.RS().Step != pbft.RoundStepPrecommit || X.RS().LockedBlock == nil {
+		return false
+	}
+	// now the late prevote completes the polka for B2 at X (round 1 = X's current round)
+	net.Inject(X.ID, byzID, byzPrevote)
+	x.Label("late-polka-delivered")
+	x.NonTrivial()
+	// ---- the Byzantine validator is silent from here on; everything else is fair
+	if !d.RunFair(1, 6000) {
+		x.Fail("height-does-not-terminate", "after a polka for another block reached node %d late in its current round (it was locked on an earlier block and had precommitted nil), fair delivery no longer finishes the height: %s", X.ID, sim.Digest(X.RS()))
+	}
+	return true
+}
+
+func TestLatePolka(t *testing.T) {
+	pl := h.NewPlain(t, "C12", "latepolka")
+	var rc LatePolkaCase
+	if h.ReplayCase("C12", "latepolka", &rc) {
+		pl.Case(rc, func(x *h.Ctx) { runLatePolka(rc, x) })
+		return
+	}
+	if h.Replaying() {
+		t.Skip()
+	}
+	for i := 0; i < 3; i++ {
+		c := LatePolkaCase{X: i}
+		pl.Case(c, func(x *h.Ctx) { runLatePolka(c, x) })
+	}
+	h.SetExhaustive("C12", "latepolka")
+}
